@@ -68,6 +68,14 @@ func init() {
 			Old: "poc.VerifyProof(proof, mdb.pubKeyHash, challenge, filter)", New: "poc.VerifyProof(proof, pocutil.PubKeyHash(mdb.pubKey), challenge, filter)"},
 		{Name: "ReadFull byte count kept and compared", Kill: false, File: fPlot,
 			Old: "if _, err := io.ReadFull(bufRdA, bs); err != nil {", New: "if n, err := io.ReadFull(bufRdA, bs); err != nil || n != len(bs) {"},
+		{Name: "second pass skips the pairs below the window start (seed C07-r2b)", Kill: true, Rule: "C07-SCAN", File: "poc/engine/massdb/massdb.v1/plot.go",
+			Old: "\t\tif _, err := hmA.data.Seek(int64(hmA.offset), 0); err != nil {\n", New: "\t\tif _, err := hmA.data.Seek(int64(hmA.offset)+int64(startPoint)*int64(recordSize)*2, 0); err != nil {\n",
+			File2: "poc/engine/massdb/massdb.v1/plot.go", Old2: "\t\tfor y := pocutil.PoCValue(0); y < half; y++ {\n\t\t\tif _, err := io.ReadFull(bufRdA, bs); err != nil {", New2: "\t\tfor y := startPoint; y < half; y++ {\n\t\t\tif _, err := io.ReadFull(bufRdA, bs); err != nil {"},
+		{Name: "HashMapB.Get returns slices of a scratch buffer held on the map (seed C07-r2c)", Kill: true, Rule: "C07-OWN", File: "poc/engine/massdb/massdb.v1/hashmap.go",
+			Old: "type HashMapB struct {\n\tHashMap\n}", New: "type HashMapB struct {\n\tHashMap\n\tscratch [16]byte\n}",
+			File2: "poc/engine/massdb/massdb.v1/hashmap.go", Old2: "func (hm *HashMapB) Get(key pocutil.PoCValue) ([]byte, []byte, error) {\n\tvar recordSize = hm.recordSize\n\tvar proof [16]byte\n", New2: "func (hm *HashMapB) Get(key pocutil.PoCValue) ([]byte, []byte, error) {\n\tvar recordSize = hm.recordSize\n\tvar proof = hm.scratch[:]\n"},
+		{Name: "HashMapB.Get allocates its buffer with make", Kill: false, File: "poc/engine/massdb/massdb.v1/hashmap.go",
+			Old: "func (hm *HashMapB) Get(key pocutil.PoCValue) ([]byte, []byte, error) {\n\tvar recordSize = hm.recordSize\n\tvar proof [16]byte\n", New: "func (hm *HashMapB) Get(key pocutil.PoCValue) ([]byte, []byte, error) {\n\tvar recordSize = hm.recordSize\n\tvar proof = make([]byte, 16)\n"},
 	}
 }
 
